@@ -433,8 +433,14 @@ class TAPParser:
                 if self.plan and self.plan.late and not self.found_late_test:
                     yield self.Error('unexpected test after late plan')
                     self.found_late_test = True
+                try:
+                    number = self.last_test + 1 if m.group(2) is None else int(m.group(2))
+                except ValueError:
+                    # more digits than sys.get_int_max_str_digits() allows
+                    yield self.Error('test number is too large')
+                    return
                 self.num_tests += 1
-                self.last_test = self.last_test + 1 if m.group(2) is None else int(m.group(2))
+                self.last_test = number
                 self.highest_test = max(self.highest_test, self.last_test)
                 self.seen_tests.add(self.last_test)
                 if self.plan and self.last_test > self.plan.num_tests:
@@ -449,7 +455,11 @@ class TAPParser:
                 if self.plan:
                     yield self.Error('more than one plan found')
                 else:
-                    num_tests = int(m.group(1))
+                    try:
+                        num_tests = int(m.group(1))
+                    except ValueError:
+                        yield self.Error('number of tests in plan is too large')
+                        return
                     skipped = num_tests == 0
                     if m.group(2):
                         if m.group(2).upper().startswith('SKIP'):
@@ -475,7 +485,11 @@ class TAPParser:
                 if self.lineno != 1:
                     yield self.Error('version number must be on the first line')
                     return
-                self.version = int(m.group(1))
+                try:
+                    self.version = int(m.group(1))
+                except ValueError:
+                    yield self.Error('version number is too large')
+                    return
                 if self.version < 13:
                     yield self.Error('version number should be at least 13')
                 else:
